@@ -181,7 +181,7 @@ def gen(hs, prefix='g16'):
             if kd == 'triple': return [('p%d' % (o['argi'] + j), str(W)) for j in range(3)]
             if o.get('const'): return [(v, str(ar))]
             if o['pos'] == 'none': return [(v, str(ar * W))]
-            io = 'OUT' if o is res else 'IN'
+            io = 'OUT' if o is res else ('INB' if (len(ops) > 1 and o is ops[1]) else 'IN')
             if o['pos'] == 'stride':
                 j = o['posargi']; req.append('p%d <= %d' % (j, SB)); req.append('STRIDEPAT_%s%d(p%d)' % (io, ar, j))
                 return [(v, '(%d * p%d + %d)' % (W - 1, j, ar))]
@@ -252,7 +252,7 @@ def gen(hs, prefix='g16'):
             uid, ', '.join(cdecl[i] for i in order), ' && '.join(req) or '1', ', '.join(assigns), '\n    && '.join(ens)))
         special = {}
         for o in allobjs:
-            io = 'OUT' if o is res else 'IN'
+            io = 'OUT' if o is res else ('INB' if (len(ops) > 1 and o is ops[1]) else 'IN')
             if o.get('pos') == 'stride': special[o['posargi']] = 'SH_STRIDE_%s%d(p%d)' % (io, o.get('arity', 3), o['posargi'])
             if o.get('pos') == 'idx': special[o['posargi']] = 'SH_IDX_%s%d_%d(p%d)' % (io, o.get('arity', 3), W, o['posargi'])
         hb = '%s; %s(%s); VF_SENTINEL;' % ('; '.join(cdecl[i] for i in order), uid, ', '.join(special.get(i, 'p%d' % i) for i in order))
@@ -287,9 +287,9 @@ def gen(hs, prefix='g16'):
         O = []
         for i in order:
             if i in special:
-                io_ar = re.match(r'SH_(STRIDE|IDX)_(IN|OUT)(\d)', special[i]).groups()
-                if io_ar[0] == 'STRIDE': O.append('const uint64_t p%d = SHP[shape].s%s%s;' % (i, 'o' if io_ar[1] == 'OUT' else 'i', io_ar[2]))
-                else: O.append('uint64_t *p%d = (uint64_t *)SHP[shape].x%s%s_%d;' % (i, 'o' if io_ar[1] == 'OUT' else 'i', io_ar[2], W))
+                io_ar = re.match(r'SH_(STRIDE|IDX)_(INB|IN|OUT)(\d)', special[i]).groups()
+                if io_ar[0] == 'STRIDE': O.append('const uint64_t p%d = SHP[shape].s%s%s;' % (i, {'OUT': 'o', 'IN': 'i', 'INB': 'j'}[io_ar[1]], io_ar[2]))
+                else: O.append('uint64_t *p%d = (uint64_t *)SHP[shape].x%s%s_%d;' % (i, {'OUT': 'o', 'IN': 'i', 'INB': 'j'}[io_ar[1]], io_ar[2], W))
         for i in order:
             if i not in special and '*' not in cdecl[i]: O.append('uint64_t p%d = R.next();' % i)
         for v, e in fresh: O.append('std::vector<uint64_t> V%s(%s); for (auto &x_ : V%s) x_ = R.next(); uint64_t *%s = V%s.data();' % (v, e.replace('VMAX', 'std::max<uint64_t>'), v, v, v))
@@ -344,10 +344,14 @@ LARGE = 4099
 def arr(xs): return '{' + ','.join(str(x) for x in xs) + '}'
 def shape_table():
     return {
-     1: dict(doc='natural: ext stride 3, base stride 1, index lists reversed', s3=3, s1=1, so=3, i3=lambda W, k: 3 * (W - 1 - k), i1=lambda W, k: W - 1 - k, o3=lambda W, k: 3 * (W - 1 - k)),
-     2: dict(doc='ext stride 1 (overlapping reads), base stride 3, output stride 5, index lists permuted and spread', s3=1, s1=3, so=5, i3=lambda W, k: 4 * ((5 * k + 3) % 11), i1=lambda W, k: (5 * k + 3) % 11, o3=lambda W, k: 4 * ((5 * k + 3) % 11)),
-     3: dict(doc='input strides 0 (every element reads element 0), output stride 4, input index lists constant 5, output lists permuted', s3=0, s1=0, so=4, i3=lambda W, k: 5, i1=lambda W, k: 5, o3=lambda W, k: 3 * ((5 * k + 3) % 11)),
-     4: dict(doc='large strides %d, index lists k*%d' % (LARGE, LARGE), s3=LARGE, s1=LARGE, so=LARGE, i3=lambda W, k: k * LARGE, i1=lambda W, k: k * LARGE, o3=lambda W, k: k * LARGE),
+     1: dict(doc='natural: ext stride 3, base stride 1, index lists reversed (second operand: strides 4 / 2, lists in order with a gap)', s3=3, s1=1, so=3, i3=lambda W, k: 3 * (W - 1 - k), i1=lambda W, k: W - 1 - k, o3=lambda W, k: 3 * (W - 1 - k),
+             s3b=4, s1b=2, i3b=lambda W, k: 4 * k + 1, i1b=lambda W, k: 2 * k + 1),
+     2: dict(doc='ext stride 1 (overlapping reads), base stride 3, output stride 5, index lists permuted and spread', s3=1, s1=3, so=5, i3=lambda W, k: 4 * ((5 * k + 3) % 11), i1=lambda W, k: (5 * k + 3) % 11, o3=lambda W, k: 4 * ((5 * k + 3) % 11),
+             s3b=2, s1b=5, i3b=lambda W, k: 3 * ((7 * k + 2) % 11), i1b=lambda W, k: (7 * k + 2) % 11),
+     3: dict(doc='input strides 0 (every element reads element 0), output stride 4, input index lists constant 5, output lists permuted', s3=0, s1=0, so=4, i3=lambda W, k: 5, i1=lambda W, k: 5, o3=lambda W, k: 3 * ((5 * k + 3) % 11),
+             s3b=0, s1b=0, i3b=lambda W, k: 2, i1b=lambda W, k: 7),
+     4: dict(doc='large strides %d, index lists k*%d' % (LARGE, LARGE), s3=LARGE, s1=LARGE, so=LARGE, i3=lambda W, k: k * LARGE, i1=lambda W, k: k * LARGE, o3=lambda W, k: k * LARGE,
+             s3b=LARGE + 2, s1b=LARGE + 2, i3b=lambda W, k: (W - 1 - k) * LARGE, i1b=lambda W, k: (W - 1 - k) * LARGE),
     }
 def shapes_inc():
     out = []
@@ -355,19 +359,19 @@ def shapes_inc():
     for n, s in shapes.items():
         out.append('%s VF_SHAPE == %d /* %s */' % ('#if' if n == 1 else '#elif', n, s['doc']))
         for W in (4, 8):
-            for tag, f in (('I3', s['i3']), ('I1', s['i1']), ('O3', s['o3'])):
+            for tag, f in (('I3', s['i3']), ('I1', s['i1']), ('O3', s['o3']), ('J3', s['i3b']), ('J1', s['i1b'])):
                 out.append('static const u64 SH%s_%d[%d] = %s;' % (tag, W, W, arr(f(W, k) for k in range(W))))
-        out.append('#define SH_STRIDE_IN3(p) ((u64)%d)\n#define SH_STRIDE_IN1(p) ((u64)%d)\n#define SH_STRIDE_OUT3(p) ((u64)%d)' % (s['s3'], s['s1'], s['so']))
-        out.append('#define STRIDEPAT_IN3(s) ((s) == %d)\n#define STRIDEPAT_IN1(s) ((s) == %d)\n#define STRIDEPAT_OUT3(s) ((s) == %d)' % (s['s3'], s['s1'], s['so']))
+        out.append('#define SH_STRIDE_IN3(p) ((u64)%d)\n#define SH_STRIDE_IN1(p) ((u64)%d)\n#define SH_STRIDE_OUT3(p) ((u64)%d)\n#define SH_STRIDE_INB3(p) ((u64)%d)\n#define SH_STRIDE_INB1(p) ((u64)%d)' % (s['s3'], s['s1'], s['so'], s['s3b'], s['s1b']))
+        out.append('#define STRIDEPAT_IN3(s) ((s) == %d)\n#define STRIDEPAT_IN1(s) ((s) == %d)\n#define STRIDEPAT_OUT3(s) ((s) == %d)\n#define STRIDEPAT_INB3(s) ((s) == %d)\n#define STRIDEPAT_INB1(s) ((s) == %d)' % (s['s3'], s['s1'], s['so'], s['s3b'], s['s1b']))
         for W in (4, 8):
-            for io, ar, tag, f in (('IN', 3, 'I3', s['i3']), ('IN', 1, 'I1', s['i1']), ('OUT', 3, 'O3', s['o3'])):
+            for io, ar, tag, f in (('IN', 3, 'I3', s['i3']), ('IN', 1, 'I1', s['i1']), ('OUT', 3, 'O3', s['o3']), ('INB', 3, 'J3', s['i3b']), ('INB', 1, 'J1', s['i1b'])):
                 out.append('#define SH_IDX_%s%d_%d(p) ((u64 *)SH%s_%d)' % (io, ar, W, tag, W))
                 out.append('#define IDXPAT_%s%d_%d(p) (%s)' % (io, ar, W, ' && '.join('p[%d] == %d' % (k, f(W, k)) for k in range(W))))
         out.append('#define FRESH_IDX(p, n) 1')
     out.append('#else /* symbolic strides / index lists */')
-    out.append('#define SH_STRIDE_IN3(p) p\n#define SH_STRIDE_IN1(p) p\n#define SH_STRIDE_OUT3(p) p\n#define STRIDEPAT_IN3(s) 1\n#define STRIDEPAT_IN1(s) 1\n#define STRIDEPAT_OUT3(s) 1')
+    out.append('#define SH_STRIDE_IN3(p) p\n#define SH_STRIDE_IN1(p) p\n#define SH_STRIDE_OUT3(p) p\n#define SH_STRIDE_INB3(p) p\n#define SH_STRIDE_INB1(p) p\n#define STRIDEPAT_IN3(s) 1\n#define STRIDEPAT_IN1(s) 1\n#define STRIDEPAT_OUT3(s) 1\n#define STRIDEPAT_INB3(s) 1\n#define STRIDEPAT_INB1(s) 1')
     for W in (4, 8):
-        for io, ar in (('IN', 3), ('IN', 1), ('OUT', 3)):
+        for io, ar in (('IN', 3), ('IN', 1), ('OUT', 3), ('INB', 3), ('INB', 1)):
             out.append('#define SH_IDX_%s%d_%d(p) p\n#define IDXPAT_%s%d_%d(p) 1' % (io, ar, W, io, ar, W))
     out.append('#define FRESH_IDX(p, n) __CPROVER_is_fresh(p, n)\n#endif')
     return '/* GENERATED by props/C16/gen.py (shape tables) -- do not edit */\n' + '\n'.join(out) + '\n'
@@ -384,12 +388,13 @@ if __name__ == '__main__':
     open(os.path.join(HERE, 'shapes.inc'), 'w').write(shapes_inc())
     # native oracle tables
     sh = shape_table()
-    L = ['// GENERATED by props/C16/gen.py -- do not edit', 'struct vf_shape { uint64_t si3, si1, so3; uint64_t xi3_4[4], xi1_4[4], xo3_4[4], xi3_8[8], xi1_8[8], xo3_8[8]; };',
+    L = ['// GENERATED by props/C16/gen.py -- do not edit', 'struct vf_shape { uint64_t si3, si1, so3, sj3, sj1; uint64_t xi3_4[4], xi1_4[4], xo3_4[4], xi3_8[8], xi1_8[8], xo3_8[8], xj3_4[4], xj1_4[4], xj3_8[8], xj1_8[8]; };',
          'static vf_shape SHP[5] = { {},']
     for n_ in (1, 2, 3, 4):
         s_ = sh[n_]
-        L.append('  { %d, %d, %d, %s, %s, %s, %s, %s, %s },' % (s_['s3'], s_['s1'], s_['so'], arr(s_['i3'](4, k) for k in range(4)), arr(s_['i1'](4, k) for k in range(4)), arr(s_['o3'](4, k) for k in range(4)),
-                                                             arr(s_['i3'](8, k) for k in range(8)), arr(s_['i1'](8, k) for k in range(8)), arr(s_['o3'](8, k) for k in range(8))))
+        L.append('  { %d, %d, %d, %d, %d, %s, %s, %s, %s, %s, %s, %s, %s, %s, %s },' % (s_['s3'], s_['s1'], s_['so'], s_['s3b'], s_['s1b'], arr(s_['i3'](4, k) for k in range(4)), arr(s_['i1'](4, k) for k in range(4)), arr(s_['o3'](4, k) for k in range(4)),
+                                                             arr(s_['i3'](8, k) for k in range(8)), arr(s_['i1'](8, k) for k in range(8)), arr(s_['o3'](8, k) for k in range(8)),
+                                                             arr(s_['i3b'](4, k) for k in range(4)), arr(s_['i1b'](4, k) for k in range(4)), arr(s_['i3b'](8, k) for k in range(8)), arr(s_['i1b'](8, k) for k in range(8))))
     L.append('};')
     L.append('extern "C" {')
     for uid, is512, pro, body in orc: L.append(pro if not is512 else '#ifdef __AVX512__\n%s\n#endif' % pro)
